@@ -7,6 +7,23 @@ props = [json.loads(l) for l in open(os.path.join(HERE, "properties.jsonl"))]
 
 # id -> (level, technique, level text, level note, design ref)
 CLAIMS = {
+    "C06": ("model_checking",
+            "TLA+ interrupt logic (Z80Int: named acceptance/refusal outcomes) + TLC trace validation of the control-bit matrix and of request/instruction histories",
+            "The complete matrix of request kind x mode x IFF1 x IFF2 x halted/running x PC/SP placement and random histories "
+            "of EI/DI/RETN/RETI/HALT/IM with requests raised at arbitrary points (nesting, raised while disabled) are executed "
+            "on the real CPU; TLC validates every Step against StepSet (acceptance iff IFF1, flip-flops, pushed PC, dispatch "
+            "address, consumed/pending, handler counters).",
+            "Control bits exhaustive, data and histories sampled. Mode-0 resume address is judged by C07; EI-delay and RETI's "
+            "IFF copy are left open as the property allows.",
+            "DESIGN.md section 3 C06"),
+    "C08": ("model_checking",
+            "TLA+ Run layer (Z80Run: stop rule over StepSet) + Run calls recorded as single trace events expanded by TLC into silent Steps",
+            "Generated terminating programs are run through the real CPU.Run with breakpoint sets, stale HALT, pending and "
+            "device-raised requests and repeated Run calls; TLC expands every Run event into Steps of the specification and "
+            "requires the logged error, registers, memory, port log, access count and pending request to be a result the stop "
+            "rule allows.",
+            "Programs are generated (random + structured), not enumerated. Requests raised during an accepting Step are not generated.",
+            "DESIGN.md section 3 C08"),
     "C03": ("model_checking",
             "byte-serial composition of TLC's complete 8-bit tables (rule checked by TLC) + exhaustive Go sweep of CPU.Step over operand pairs",
             "The real CPU.Step is swept over all 2^32 operand pairs x F in {00,01,FE,FF} for every non-doubling ADD/ADC/SBC "
